@@ -6,6 +6,7 @@ package engcodec
 import (
 	"fmt"
 	"math/rand"
+	"reflect"
 	"time"
 
 	"github.com/drand/drand/v2/common/key"
@@ -131,7 +132,12 @@ func (g *gen) group(s *crypto.Scheme, o groupOpts) (*key.Group, *share.PriPoly) 
 	grp := &key.Group{Threshold: thr, Period: period, Scheme: s, ID: o.id, CatchupPeriod: time.Duration(g.r.Intn(60)) * time.Second,
 		Nodes: nodes, GenesisTime: 1 + g.r.Int63n(1<<32)}
 	if g.r.Intn(10) == 0 {
+		// as key.LoadGroup does; whole seconds unless a sub-second group was asked for (the DKG
+		// proposal carries the catch-up period in seconds, so nothing finer is reachable)
 		grp.CatchupPeriod = period / 2
+		if !o.subsec {
+			grp.CatchupPeriod = grp.CatchupPeriod.Truncate(time.Second)
+		}
 	}
 	var poly *share.PriPoly
 	if o.withKey {
@@ -221,12 +227,30 @@ func (g *gen) dbStateN(s *crypto.Scheme, st dkg.Status, withFinal bool, maxNodes
 var allStatuses = []dkg.Status{dkg.Fresh, dkg.Proposed, dkg.Proposing, dkg.Accepted, dkg.Rejected, dkg.Aborted,
 	dkg.Executing, dkg.Complete, dkg.TimedOut, dkg.Joined, dkg.Left, dkg.Failed}
 
-// ProbeStates returns a few generated states (used by ad-hoc probes during development).
-func ProbeStates(seed int64) []*dkg.DBState {
-	g := newGen(seed)
-	var out []*dkg.DBState
-	for i, st := range allStatuses {
-		out = append(out, g.dbState(g.sch[i%len(g.sch)], st, i%2 == 0))
+// fillZero sets every exported top-level field of *x that still has its zero value and is of a
+// basic kind (string, integer, duration, byte slice, time) to a non-zero value, by reflection: a
+// field the generators above do not know about (added to the struct later) is thereby exercised
+// too, so that a mirror that forgets it loses a visible value.
+func fillZero(x interface{}) {
+	v := reflect.ValueOf(x).Elem()
+	for i := 0; i < v.NumField(); i++ {
+		f := v.Field(i)
+		if !v.Type().Field(i).IsExported() || !f.CanSet() || !f.IsZero() {
+			continue
+		}
+		switch {
+		case f.Type() == reflect.TypeOf(time.Time{}):
+			f.Set(reflect.ValueOf(time.Unix(1700000000, 0).UTC()))
+		case f.Type() == reflect.TypeOf(time.Duration(0)):
+			f.SetInt(int64(7 * time.Second))
+		case f.Kind() == reflect.String:
+			f.SetString("zz-filled")
+		case f.Kind() >= reflect.Int && f.Kind() <= reflect.Int64:
+			f.SetInt(7)
+		case f.Kind() >= reflect.Uint && f.Kind() <= reflect.Uint64:
+			f.SetUint(7)
+		case f.Kind() == reflect.Slice && f.Type().Elem().Kind() == reflect.Uint8:
+			f.SetBytes([]byte{1, 2, 3})
+		}
 	}
-	return out
 }
